@@ -317,6 +317,36 @@ func main() {
 		b.WriteString("def crsSeed : String := " + localInits(findFunc(cfg, "GenerateRandomPoints").Body)["seed"] + "\n")
 		el := parse(filepath.Join(*repo, "banderwagon/element.go"))
 		b.WriteString("def coordinateSizeExpr : String := " + leanString(exprStr(topLevelValue(el, "coordinateSize"))) + "\n")
+		// glue functions that are not translated: their statements are pinned
+		{
+			noDocs := func(n ast.Node) {
+				ast.Inspect(n, func(n ast.Node) bool {
+					switch x := n.(type) {
+					case *ast.GenDecl:
+						x.Doc = nil
+					case *ast.ValueSpec:
+						x.Doc, x.Comment = nil, nil
+					}
+					return true
+				})
+			}
+			bwme := parse(filepath.Join(*repo, "banderwagon/multiexp.go"))
+			pin := func(name string, fd *ast.FuncDecl) {
+				noDocs(fd)
+				var st []string
+				for _, s := range fd.Body.List {
+					st = append(st, stmtText(s))
+				}
+				b.WriteString("def glue" + name + " : List String := [" + quoteAll(st) + "]\n")
+			}
+			pin("NewIPASettings", findFunc(cfg, "NewIPASettings"))
+			pin("MultiScalar", findFunc(cfg, "MultiScalar"))
+			pin("Commit", findMethod(cfg, "Commit"))
+			pin("ComputeNumRounds", findFunc(cfg, "computeNumRounds"))
+			pin("GenerateRandomPoints", findFunc(cfg, "GenerateRandomPoints"))
+			pin("BanderwagonMultiExp", findMethod(bwme, "MultiExp"))
+			pin("NewPrecompMSM", findFunc(pre, "NewPrecompMSM"))
+		}
 		write("Consts.lean", b.String())
 	}
 
@@ -463,6 +493,35 @@ func main() {
 		b.WriteString("def sqrtExpHex : String := " + sqrtExp + "\n")
 		b.WriteString("def modulusDec : String := " + modulus + "\n")
 		b.WriteString("def sqrtG : List Nat := " + leanNatList(compositeUints(mustInit(findMethod(fr, "Sqrt").Body, "g"))) + "\n")
+		// Inverse, Sqrt, Div, mulByConstant, _butterflyGeneric: not translated (unbounded loops / switch) — their
+		// statements are pinned, so that any edit is at least a broken obligation
+		noDocs := func(n ast.Node) {
+			ast.Inspect(n, func(n ast.Node) bool {
+				switch x := n.(type) {
+				case *ast.GenDecl:
+					x.Doc = nil
+				case *ast.ValueSpec:
+					x.Doc, x.Comment = nil, nil
+				}
+				return true
+			})
+		}
+		for _, fn := range []string{"Inverse", "Sqrt", "Div"} {
+			var st []string
+			noDocs(findMethod(fr, fn))
+			for _, s := range findMethod(fr, fn).Body.List {
+				st = append(st, stmtText(s))
+			}
+			b.WriteString("def body" + fn + " : List String := [" + quoteAll(st) + "]\n")
+		}
+		for _, fn := range []string{"mulByConstant", "_butterflyGeneric"} {
+			var st []string
+			noDocs(findFunc(fr, fn))
+			for _, s := range findFunc(fr, fn).Body.List {
+				st = append(st, stmtText(s))
+			}
+			b.WriteString("def body" + strings.TrimPrefix(fn, "_") + " : List String := [" + quoteAll(st) + "]\n")
+		}
 		write("FrConsts.lean", b.String())
 	}
 
